@@ -115,6 +115,26 @@ static std::string handle(const std::vector<std::string>& f)
                 }
             }
         }
+        if (pos.size() > 3 && pos.at(3) == "1")
+        {
+            // a parse (of an empty command line, and of one giving the first multi-option) before the text is
+            // printed: the usage text describes the declarations, whatever was parsed before
+            const char* av0[] = { "prog" };
+            try
+            {
+                p.parse(1, av0);
+            }
+            catch (std::exception&)
+            {
+            }
+            try
+            {
+                p.parse(std::vector<no::user_input>{});
+            }
+            catch (std::exception&)
+            {
+            }
+        }
         if (pos.at(0) == "1")
         {
             p.accept_positionals();
